@@ -50,11 +50,21 @@ pub fn observe(inst: &Inst, kind: &RngKind) -> Option<Observed> {
     for r in &recs {
         if let Ev::Finalize { ext } = &r.ev {
             let hist: Vec<String> = r.hist.iter().filter_map(ev_str).collect();
-            let rk = r.hist.iter().find_map(|e| match e {
-                Ev::Rekey { label, witness } => Some((label.clone(), witness.clone())),
-                _ => None,
-            });
-            let (l, w) = rk.unwrap_or_default();
+            // everything keyed into the instance: the labels and the bytes of every rekey step, in order
+            let (mut l, mut w) = (vec![], vec![]);
+            for e in &r.hist {
+                if let Ev::Rekey { label, witness } = e {
+                    if l.is_empty() {
+                        l = label.clone();
+                    }
+                    w.extend_from_slice(&(witness.len() as u64).to_le_bytes());
+                    w.extend_from_slice(witness);
+                }
+            }
+            // (a single rekey is reported as its bare bytes, as the model emits them)
+            if r.hist.iter().filter(|e| matches!(e, Ev::Rekey { .. })).count() == 1 {
+                w = w[8..].to_vec();
+            }
             instances.push((r.id, hist, l, w, ext.clone()));
         }
     }
@@ -80,7 +90,7 @@ fn pos_wire(name: &str) -> String {
 
 pub fn c13(opts: &Opts, out: &mut Out) {
     let mut rng = chacha(opts.seed, 13);
-    let lat = lattice(opts, if opts.thorough { 256 } else { 64 }, &mut rng);
+    let lat = lattice(opts, if opts.thorough { 256 } else { 128 }, &mut rng);
     let mut classes = BTreeSet::new();
     for (idx, (n, m, cap, t, class, _seeded, kind)) in lat.pts.iter().enumerate() {
         for seeded in [false, true] {
@@ -184,7 +194,7 @@ pub fn c14(opts: &Opts, out: &mut Out) {
     let mut rng = chacha(opts.seed, 14);
     let mut classes = BTreeSet::new();
     // (1) RNG construction relation on the lattice: witness serialisation and forked histories equal the model's
-    let lat = lattice(opts, if opts.thorough { 128 } else { 32 }, &mut rng);
+    let lat = lattice(opts, if opts.thorough { 128 } else { 64 }, &mut rng);
     for (n, m, cap, t, class, seeded, kind) in lat.pts.iter() {
         let inst = fmrun::random_inst(*n, *m, *cap, *t, *class, *seeded, &mut rng);
         let key = format!("{} rng={:?}", inst.describe(), kind);
